@@ -30,11 +30,16 @@ class Base:
                   "the model is tied to /repo's current source on every run by an exact differential correspondence "
                   "(real cgmath code at an exact rational scalar vs the model, byte-for-byte) and direct oracle "
                   "evaluation of the property clauses on the implementation.")
-    level_note = ("Trusted: Lean kernel + Mathlib, axioms {propext, Classical.choice, Quot.sound}; the model<->code tie is a "
-                  "checked correspondence on sampled+boundary inputs (Schwartz-Zippel: different rational functions "
+    level_note = ("Trusted: Lean kernel + Mathlib, axioms {propext, Classical.choice, Quot.sound}; the recording scalar and the emitter "
+                  "of the trace translation (they print what the real code executed); for the ops and paths not traced the model<->code tie "
+                  "is a checked correspondence on sampled+boundary inputs (Schwartz-Zippel: different rational functions "
                   "disagree almost surely), not a proof about the Rust source; scalar arithmetic, num_traits::Float and "
-                  "approx are parameters of the model; floating-point rounding is outside the model.")
-    technique = "Lean 4 theorems about a model + exact differential correspondence (Rust exact-rational scalar vs Lean Rat driver)"
+                  "approx are parameters of the model; floating-point rounding is outside the model (native f32/f64 checks with explicit "
+                  "margins cover the regions exact arithmetic cannot reach; they are oracle evaluations, not proof).")
+    technique = ("Lean 4 theorems about a model (Cgm/Props) + trace translation: the model's kernels are regenerated from the source on "
+                 "every run (real cgmath code executed on symbolic inputs, Cgm/Gen) and re-proved equal to the hand-written model on every "
+                 "path traced (Cgm/Trace), with end-to-end theorems stating property clauses about the regenerated kernels (Cgm/E2E) "
+                 "+ exact differential correspondence (Rust exact-rational scalar vs Lean Rat driver) for every op")
 
     def families(self, rng, tier):
         return []
@@ -726,7 +731,8 @@ class C13(Base):
     ops = ops_with_prefix("rad.", "deg.")
     oracle_ops = ["o.rad.modular", "o.deg.modular", "o.angle.convert"]
     technique = ("Lean 4 theorems (modular arithmetic over any ordered field, rounding-model bounds over the reals) about a "
-                 "model + exact differential correspondence + native f32/f64 range/round-trip checks")
+                 "model + trace translation (kernels regenerated from the source on every run and re-proved equal to the model, with "
+                 "end-to-end theorems about them) + exact differential correspondence + native f32/f64 range/round-trip checks")
 
     def n_random(self, tier):
         return 40 if tier == "quick" else 2000
